@@ -16,7 +16,7 @@ class C05(Property):
     id = "C05"
     title = "Concurrency caps are never exceeded and capacity is never leaked"
     quick_cases = 600
-    thorough_cases = 8000
+    thorough_cases = 5000
     design_ref = "DESIGN.md §6/C05"
     level_text = ("Unbounded Rocq theorems over interleaving models of Limit/TimeoutLimit/MaxConnsHandler, TaskRunner "
                   "and Pool (any capacity n, any number of threads, any scripts, every schedule of the atomic "
@@ -116,9 +116,20 @@ class C05(Property):
 
     # ---- execution ---------------------------------------------------------------------------
     def execute(self, cases, ctx):
-        rc, out, res = vlib.go_run(self.bin, cases, tag="c05", timeout=900)
-        if rc != 0 or len(res) != len(cases):
-            raise ExecError("c05 executor rc=%s: %s" % (rc, out[-2000:]))
+        # threads left blocked for ever at the end of a case (Borrow without Return, ...) stay in
+        # the process and make every later stack snapshot slower: run batches in fresh processes
+        import concurrent.futures
+        chunks = [cases[i:i + 150] for i in range(0, len(cases), 150)]
+
+        def work(ix):
+            rc, out, res = vlib.go_run(self.bin, chunks[ix], tag="c05_%d" % ix, timeout=600)
+            if rc != 0 or len(res) != len(chunks[ix]):
+                raise ExecError("c05 executor rc=%s: %s" % (rc, out[-2000:]))
+            return res
+
+        with concurrent.futures.ThreadPoolExecutor(max_workers=4) as ex:
+            parts = list(ex.map(work, range(len(chunks))))
+        res = [r for p in parts for r in p]
         return [self._digest(c, r) for c, r in zip(cases, res)]
 
     @staticmethod
@@ -131,7 +142,19 @@ class C05(Property):
         lastt = 0
         for s in r.get("steps") or []:
             order = []
-            for e in s["ev"]:
+            # canonical order inside one macro step: the released actor's events first.  Every other
+            # actor was parked or blocked when the step began and only moves as a consequence of the
+            # released actor's call, whose linearisation point therefore precedes their events; the
+            # order in which the two goroutines reach the (shared) logger is a race, not an observation.
+            rel_get = case["kind"] == "pl" and any(e["a"] == s["a"] and e["k"] == "inv" and (e.get("v") or [9])[0] == 0
+                                                   for e in s["ev"])
+
+            def first(e):
+                if e["k"] in ("create", "destroy"):   # logged from inside Pool.Get, by whoever runs it
+                    return rel_get
+                return e["a"] == s["a"]
+            evs = [e for e in s["ev"] if first(e)] + [e for e in s["ev"] if not first(e)]
+            for e in evs:
                 k = EK[e["k"]]
                 if k in (0, 1, 2, 3) and e["a"] not in order:
                     order.append(e["a"])
